@@ -206,6 +206,19 @@ def run_case(case, rec):
     mbs = 1 if rq == 'oversize' else None
     d, log, table = build(disp, stack, tname, events, mbs=mbs)
     text = '{"jsonrpc": ' if rq == 'unparsable' else json.dumps(REQUESTS[rq])
+    # the same request is served twice by the same dispatcher: the second time must look exactly like the first
+    # (nothing the user passed in - handler lists, middleware list - may have been altered by serving a request)
+    out = None
+    for rep in (1, 2):
+        del events[:]
+        del log[:]
+        out = run_once(case, rec, d, log, table, events, text, stack, tname, rq, disp, mbs, rep)
+        if not isinstance(out, tuple):
+            break
+    return out
+
+
+def run_once(case, rec, d, log, table, events, text, stack, tname, rq, disp, mbs, rep):
     try:
         if disp.startswith('async'):
             loop = VLoop()
@@ -234,7 +247,7 @@ def run_case(case, rec):
         mw_got = [e for e in events if e[0] == 'mw']
         mw_want = [e for e in want_events if e[0] == 'mw']
         what = 'middleware events' if mw_got != mw_want else 'error handler events'
-        rec.violation('C12:%s differ from the declared order (%s)' % (what, kind), case, expected=want_events, observed=events)
+        rec.violation('C12:%s differ from the declared order (%s)%s' % (what, kind, '' if rep == 1 else ' when the request is served a second time'), case, expected=want_events, observed=list(events))
     elif p:
         rec.violation('C12:response differs from what the chain returned (%s):%s' % (kind, norm(p)), case, expected=want_answer, observed=answer, detail=p)
     elif not ref.calls_eq(log, want_calls):
